@@ -36,40 +36,81 @@ Definition opens (lg : list oev) : list (string * xval * string * string) :=
 
 Definition count_str (s : string) (l : list string) : nat := length (filter (String.eqb s) l).
 
+(* ---- the root environment an Open must be told ----
+   environment.go CopyForEnv: a root context named "" or "<yaml>" (esc.AnonymousEnvironmentName) is replaced by the
+   name of the environment being entered, so under an anonymous root the "rootest non-anonymous" environment is the
+   direct import of the root through which the current environment was reached. *)
+Definition anonymous_name (n : string) : bool := String.eqb n "" || String.eqb n "<yaml>".
+
+Definition imports_of (W : world) (n : string) : list string :=
+  match alookup n (w_envs W) with Some (LoadOk d) => map fst (ed_imports d) | _ => [] end.
+
+Fixpoint reaches (W : world) (fuel : nat) (a b : string) : bool :=
+  match fuel with
+  | O => false
+  | S f => String.eqb a b || existsb (fun m => reaches W f m b) (imports_of W a)
+  end.
+
+Definition root_ok (c : case) (r cur : string) : bool :=
+  if anonymous_name (c_name c) then
+    (String.eqb cur (c_name c) && String.eqb r (c_name c))
+    || (negb (anonymous_name r)
+        && existsb (String.eqb r) (map fst (ed_imports (c_def c)))
+        && reaches (c_world c) (S (length (w_envs (c_world c)))) r cur)
+  else String.eqb r (c_name c).
+
+(* ---- loads: (call number, name) of every LoadEnvironment of the implementation, oldest first.  Every collaborator
+   call of the harness is logged, so the position in the log is the call number the fault plan counts. *)
+Definition loads_idx (lg : list oev) : list (nat * string) :=
+  concat (map (fun p => match snd p with OLoad n => [(fst p, n)] | _ => [] end) (combine (seq 0 (length lg)) lg)).
+
+Definition env_ok (W : world) (n : string) : bool :=
+  match alookup n (w_envs W) with Some (LoadOk _) => true | _ => false end.
+
+(* the load with call number [i] of environment [n] fails: the loader does not serve a parsable definition, or it
+   is the faulted call *)
+Definition load_failed (W : world) (i : nat) (n : string) : bool :=
+  negb (env_ok W n) || match w_fault W with Some k => N.eqb k (N.of_nat i) | None => false end.
+
+(* "each imported environment is loaded at most once per evaluation": ALL loads, successful or not *)
+Definition spec_load (lg : list oev) : bool :=
+  let names := map snd (loads_idx lg) in
+  existsb (fun n => negb (Nat.eqb (count_str n names) 1)) names.
+
+(* known finding C05-failed-load-retried: eval.evaluateImport returns before registering the name in e.imports on all
+   three error exits, so a FAILED load is repeated by the next listing of the same name.  The class excuses exactly
+   that: every load that is followed by another load of the same name was a failed one (a load after a successful
+   load of the same name is outside the class). *)
+Definition loads_excused (W : world) (lg : list oev) : bool :=
+  let ls := loads_idx lg in
+  forallb (fun p => negb (existsb (fun q => Nat.ltb (fst p) (fst q) && String.eqb (snd p) (snd q)) ls)
+                    || load_failed W (fst p) (snd p)) ls.
+
+(* every clause of the property except the load clause *)
+Definition spec_other (c : case) (lg : list oev) : bool :=
+  let os := opens lg in
+  let W := c_world c in
+  (* never while only checking *)
+  (w_check W && negb (Nat.eqb (length os) 0))
+  || existsb (fun o =>
+       let '(p, i, r, cur) := o in
+       (* no unknown part *)
+       x_has_unknown i
+       (* valid for the provider's declared input schema *)
+       || match alookup p (w_provs W) with Some pv => negb (x_valid (pv_in pv) i) | None => true end
+       (* root and containing environment; exact inputs when the generator knows them *)
+       || negb (root_ok c r cur)
+       || match filter (fun s => String.eqb (s_prov s) p) (c_sites c) with
+          | s :: _ => negb (String.eqb cur (s_env s))
+                      || match s_inputs s with Some want => negb (xeq want i) | None => false end
+          | [] => true
+          end
+       (* each fn::open expression at most once *)
+       || negb (Nat.eqb (count_str p (map (fun o => fst (fst (fst o))) os)) 1)) os.
+
 Definition spec_fail (c : case) : bool :=
   match c_obs c with
-  | IObs _ _ lg =>
-      let os := opens lg in
-      let W := c_world c in
-      (* never while only checking *)
-      (w_check W && negb (Nat.eqb (length os) 0))
-      || existsb (fun o =>
-           let '(p, i, r, cur) := o in
-           (* no unknown part *)
-           x_has_unknown i
-           (* valid for the provider's declared input schema *)
-           || match alookup p (w_provs W) with Some pv => negb (x_valid (pv_in pv) i) | None => true end
-           (* root and containing environment; exact inputs when the generator knows them *)
-           || negb (String.eqb r (c_name c))
-           || match filter (fun s => String.eqb (s_prov s) p) (c_sites c) with
-              | s :: _ => negb (String.eqb cur (s_env s))
-                          || match s_inputs s with Some want => negb (xeq want i) | None => false end
-              | [] => true
-              end
-           (* each fn::open expression at most once *)
-           || negb (Nat.eqb (count_str p (map (fun o => fst (fst (fst o))) os)) 1)) os
-      (* each imported environment loaded at most once (loads that succeed) *)
-      || existsb (fun e => match e with
-                           | OLoad n => match alookup n (w_envs W) with
-                                        | Some (LoadOk _) =>
-                                            match w_fault W with
-                                            | None => negb (Nat.eqb (count_str n (concat (map (fun e => match e with OLoad m => [m] | _ => [] end) lg))) 1)
-                                            | Some _ => false
-                                            end
-                                        | _ => false
-                                        end
-                           | _ => false
-                           end) lg
+  | IObs _ _ lg => spec_other c lg || spec_load lg
   | ICrash | IPanic => true
   | ILoadErr => false
   end.
@@ -77,9 +118,16 @@ Definition spec_fail (c : case) : bool :=
 Definition mismatch (c : case) : bool :=
   match compare_run (c_world c) (c_name c) (c_def c) (c_obs c) with CmpDiff => true | _ => false end.
 
-Definition known (c : case) : bool := false.
-Definition spec_fail_new (c : case) : bool := spec_fail c && negb (known c).
-Definition spec_fail_known (c : case) : bool := spec_fail c && known c.
+(* the class: ONLY the load clause fails, and it fails only by repeating failed loads *)
+Definition known (c : case) : bool :=
+  match c_obs c with
+  | IObs _ _ lg => negb (spec_other c lg) && spec_load lg && loads_excused (c_world c) lg
+  | _ => false
+  end.
+(* a failure counts as the RECORDED finding only when the model - which reproduces it (Proofs/EvalLogLoad.v,
+   load_at_most_once_refuted) - predicts exactly what the implementation did on this case *)
+Definition spec_fail_new (c : case) : bool := spec_fail c && negb (known c && negb (mismatch c)).
+Definition spec_fail_known (c : case) : bool := spec_fail c && known c && negb (mismatch c).
 Definition nontrivial (c : case) : bool :=
   match c_obs c with IObs _ _ lg => negb (Nat.eqb (length (c_sites c)) 0) | _ => false end.
 
